@@ -9,18 +9,27 @@ import random
 import common
 from common import NCPU, Report, log, seed
 
-SYMS = ["v", "c", "s", "f", "d", "r"]
+SYMS = ["v", "c", "s", "f", "d", "r", "n", "t", "c"]
 
 
-def module_src(k, deps, with_owned, with_globals):
-    """deps: list of (module name) to load from."""
+def module_src(k, deps, with_owned, with_globals, scalar_only=()):
+    """deps: list of (module name) to load from; from the deps in scalar_only only "scalar-looking" exports
+    (a big integer, a string, a float) are loaded - values that live in the producer's arena all the same."""
     L = []
     names = []
+    scal = []
     for j, dep in enumerate(deps):
-        L.append('load("%s.star", a%d="v", b%d="c", g%d="f", h%d="s")' % (dep, j, j, j, j))
-        names.append(j)
+        if dep in scalar_only:
+            L.append('load("%s.star", n%d="n", t%d="t", fl%d="fl")' % (dep, j, j, j))
+            scal.append(j)
+        else:
+            L.append('load("%s.star", a%d="v", b%d="c", g%d="f", h%d="s")' % (dep, j, j, j, j))
+            names.append(j)
+    L.append("n = %d" % ((1 << 70) + k * (1 << 33) + k))
+    L.append('t = "text-%d-" * 5' % k)
+    L.append("fl = %d.5" % (k * 1000003))
     L.append('v = [%d, "s%d" * 3, {"k": %d}, (%d, [%d])]' % (k, k, k, k, k))
-    parts = ["v"] + ["a%d" % j for j in names] + ["b%d" % j for j in names]
+    parts = ["v", "n"] + ["a%d" % j for j in names] + ["b%d" % j for j in names] + ["n%d" % j for j in scal] + ["t%d" % j for j in scal] + ["fl%d" % j for j in scal]
     if with_owned:
         parts += ["OW0"]
     if with_globals:
@@ -50,7 +59,8 @@ def gen_history(rng, nops):
             d = rng.sample(fms, min(len(fms), rng.randint(0, 3)))
             ow = rng.choice(ofs) if ofs and rng.random() < 0.3 else None
             gl = rng.choice(gls) if gls and rng.random() < 0.3 else None
-            op = {"op": "module", "name": name, "src": module_src(k, d, ow is not None, gl is not None), "loads": {"%s.star" % x: x for x in d}}
+            so = [x for x in d if rng.random() < 0.35]
+            op = {"op": "module", "name": name, "src": module_src(k, d, ow is not None, gl is not None, scalar_only=so), "loads": {"%s.star" % x: x for x in d}}
             if ow:
                 op["owned"] = [["OW0", ow]]
             if gl:
@@ -113,7 +123,7 @@ def gen_history(rng, nops):
 def run(tier):
     rep = Report("C13", tier)
     s = seed()
-    n = 1500 if tier == "quick" else 40000
+    n = 1500 if tier == "quick" else common.tscale(40000)
     cases = []
     for i in range(n):
         rng = random.Random("%d/c13/%d" % (s, i))
